@@ -26,6 +26,9 @@ impl<T> NoNiche<T> {
     pub fn into_inner(self) -> T {
         self.0.into_inner()
     }
+    pub fn get_mut(&mut self) -> &mut T {
+        self.0.get_mut()
+    }
 }
 
 pub const T_NULL: u8 = 0;
@@ -39,11 +42,34 @@ pub struct Value {
     tag: u8,
     b: u8,
     n: u64,
-    s: NoNiche<String>,
+    // The heap-backed fields are ManuallyDrop and released by `Drop for Value` according to the tag:
+    // compiler-generated drop glue would recurse Value -> Vec<Value> -> Value ... for EVERY value,
+    // and CBMC unwinds that recursion to the bound even when the vectors are empty (measured: OOM).
+    s: core::mem::ManuallyDrop<NoNiche<String>>,
     #[cfg(feature = "nested")]
-    a: NoNiche<Vec<Value>>,
+    a: core::mem::ManuallyDrop<NoNiche<Vec<Value>>>,
     #[cfg(feature = "nested")]
-    o: NoNiche<Vec<(String, Value)>>,
+    o: core::mem::ManuallyDrop<NoNiche<Vec<(String, Value)>>>,
+}
+
+/// Under Kani a model value LEAKS its buffers (no Drop at all): when the engine cannot fold the variant of
+/// an enclosing `ValueEntry` (niche-encoded, see above) it drops a `Value` whose tag is symbolic, and the
+/// array/object branches of a tag-driven drop recurse to the unwinding bound (measured: out of memory in
+/// `Worterbuch::cset`). Freeing memory is not observable by any property.
+#[cfg(not(kani))]
+impl Drop for Value {
+    fn drop(&mut self) {
+        unsafe {
+            match self.tag {
+                T_STRING => core::mem::ManuallyDrop::drop(&mut self.s),
+                #[cfg(feature = "nested")]
+                T_ARRAY => core::mem::ManuallyDrop::drop(&mut self.a),
+                #[cfg(feature = "nested")]
+                T_OBJECT => core::mem::ManuallyDrop::drop(&mut self.o),
+                _ => {}
+            }
+        }
+    }
 }
 
 #[allow(non_snake_case, non_upper_case_globals)]
@@ -53,11 +79,11 @@ impl Value {
             tag,
             b,
             n,
-            s: NoNiche::new(s),
+            s: core::mem::ManuallyDrop::new(NoNiche::new(s)),
             #[cfg(feature = "nested")]
-            a: NoNiche::new(Vec::new()),
+            a: core::mem::ManuallyDrop::new(NoNiche::new(Vec::new())),
             #[cfg(feature = "nested")]
-            o: NoNiche::new(Vec::new()),
+            o: core::mem::ManuallyDrop::new(NoNiche::new(Vec::new())),
         }
     }
     pub const Null: Value = Value::raw(T_NULL, 0, 0, String::new());
@@ -73,13 +99,13 @@ impl Value {
     #[cfg(feature = "nested")]
     pub fn Array(a: Vec<Value>) -> Value {
         let mut v = Value::raw(T_ARRAY, 0, 0, String::new());
-        v.a = NoNiche::new(a);
+        v.a = core::mem::ManuallyDrop::new(NoNiche::new(a));
         v
     }
     #[cfg(feature = "nested")]
     pub fn Object(o: Vec<(String, Value)>) -> Value {
         let mut v = Value::raw(T_OBJECT, 0, 0, String::new());
-        v.o = NoNiche::new(o);
+        v.o = core::mem::ManuallyDrop::new(NoNiche::new(o));
         v
     }
     pub fn kind(&self) -> u8 {
@@ -105,6 +131,24 @@ impl Value {
     pub fn as_object(&self) -> Option<&Vec<(String, Value)>> {
         if self.tag == T_OBJECT { Some(self.o.get()) } else { None }
     }
+    /// move the string payload out (the rest of the value owns nothing afterwards)
+    fn take_string(mut self) -> String {
+        let s = core::mem::take(self.s.get_mut());
+        self.tag = T_NULL;
+        s
+    }
+    #[cfg(feature = "nested")]
+    fn take_array(mut self) -> Vec<Value> {
+        let a = core::mem::take(self.a.get_mut());
+        self.tag = T_NULL;
+        a
+    }
+    #[cfg(feature = "nested")]
+    fn take_object(mut self) -> Vec<(String, Value)> {
+        let o = core::mem::take(self.o.get_mut());
+        self.tag = T_NULL;
+        o
+    }
     /// harness helper: is this `Bool(b)`?
     pub fn is_bool(&self, b: bool) -> bool {
         self.tag == T_BOOL && (self.b != 0) == b
@@ -118,11 +162,11 @@ impl Clone for Value {
             b: self.b,
             n: self.n,
             // only string values own a buffer
-            s: NoNiche::new(if self.tag == T_STRING { self.s.get().clone() } else { String::new() }),
+            s: core::mem::ManuallyDrop::new(NoNiche::new(if self.tag == T_STRING { self.s.get().clone() } else { String::new() })),
             #[cfg(feature = "nested")]
-            a: NoNiche::new(if self.tag == T_ARRAY { self.a.get().clone() } else { Vec::new() }),
+            a: core::mem::ManuallyDrop::new(NoNiche::new(if self.tag == T_ARRAY { self.a.get().clone() } else { Vec::new() })),
             #[cfg(feature = "nested")]
-            o: NoNiche::new(if self.tag == T_OBJECT { self.o.get().clone() } else { Vec::new() }),
+            o: core::mem::ManuallyDrop::new(NoNiche::new(if self.tag == T_OBJECT { self.o.get().clone() } else { Vec::new() })),
         }
     }
 }
@@ -578,11 +622,11 @@ mod value_de {
                 T_NULL => visitor.visit_unit(),
                 T_BOOL => visitor.visit_bool(v.b != 0),
                 T_NUMBER => visitor.visit_u64(v.n),
-                T_STRING => visitor.visit_string(v.s.into_inner()),
+                T_STRING => visitor.visit_string(v.take_string()),
                 #[cfg(feature = "nested")]
-                T_ARRAY => visitor.visit_seq(SeqDe(v.a.into_inner().into_iter())),
+                T_ARRAY => visitor.visit_seq(SeqDe(v.take_array().into_iter())),
                 #[cfg(feature = "nested")]
-                T_OBJECT => visitor.visit_map(MapDe(v.o.into_inner().into_iter(), None)),
+                T_OBJECT => visitor.visit_map(MapDe(v.take_object().into_iter(), None)),
                 _ => Err(Error),
             }
         }
@@ -595,10 +639,10 @@ mod value_de {
         fn deserialize_enum<V: Visitor<'de>>(self, _: &'static str, _: &'static [&'static str], visitor: V) -> Result<V::Value> {
             let v = self.0;
             match v.tag {
-                T_STRING => visitor.visit_enum(EnumDe(v.s.into_inner(), None)),
+                T_STRING => visitor.visit_enum(EnumDe(v.take_string(), None)),
                 #[cfg(feature = "nested")]
                 T_OBJECT => {
-                    let mut o = v.o.into_inner();
+                    let mut o = v.take_object();
                     if o.len() != 1 {
                         return Err(Error);
                     }
